@@ -14,11 +14,14 @@ from .spec import compile_spec, width_of
 class EnumRef:
     kind = "enum"
 
-    def __init__(self, variables: dict, order: list, M=None, universe=None):
+    def __init__(self, variables: dict, order: list, M=None, universe=None, domains=None):
         self.variables = variables
         self.order = order
         if universe is None:
-            universe = list(itertools.product(*[range(2 if variables[n] == 0 else 1 << variables[n]) for n in order]))
+            # a string variable ranges over its finite domain (the machine asserts the domain constraint on every new
+            # solver, so the enumeration stays exact)
+            universe = list(itertools.product(*[(domains or {}).get(n) or range(2 if variables[n] == 0 else 1 << variables[n])
+                                                for n in order]))
         self.universe = universe
         self.M = universe if M is None else M
         self._memo = {}
@@ -54,11 +57,11 @@ class EnumRef:
 
     def values(self, e, extras=()):
         f = compile_spec(e, self.variables, self.order)
-        return {int(f(*m)) for m in self.models(extras)}
+        return {_v(f(*m)) for m in self.models(extras)}
 
     def tuples(self, es, extras=()):
         fs = [compile_spec(e, self.variables, self.order) for e in es]
-        return {tuple(int(f(*m)) for f in fs) for m in self.models(extras)}
+        return {tuple(_v(f(*m)) for f in fs) for m in self.models(extras)}
 
     def infeasible_values(self, e, vals, extras=()):
         V = self.values(e, extras)
@@ -87,8 +90,8 @@ class EnumRef:
         f = compile_spec(e, self.variables, self.order)
         if isinstance(v, (list, tuple)):
             g = compile_spec(v, self.variables, self.order)
-            return any(int(f(*m)) == int(g(*m)) for m in self.models(extras))
-        return any(int(f(*m)) == v for m in self.models(extras))
+            return any(_v(f(*m)) == _v(g(*m)) for m in self.models(extras))
+        return any(_v(f(*m)) == v for m in self.models(extras))
 
     def holds_all(self, e, extras=()):
         f = compile_spec(e, self.variables, self.order)
@@ -109,6 +112,11 @@ class EnumRef:
     def missing_tuple(self, es, tups, extras=()):
         rest = self.tuples(es, extras) - {tuple(t) for t in tups}
         return min(rest) if rest else None
+
+
+def _v(x):
+    """value of an expression under an assignment: strings stay strings, everything else is an int"""
+    return x if isinstance(x, str) else int(x)
 
 
 class NoVerdict(Exception):
